@@ -38,8 +38,12 @@ var oldTopKeys = []string{"event_id", "room_id", "sender", "state_key", "hashes"
 var extraTopKeys = []string{"unsigned", "age_ts", "redacts", "foo", "outlier", "destinations", "m.relates_to",
 	"origin ", "content.membership"}
 
-// keys that differ from a protected key only in case (rare: one event in ~40)
-var caseVariantTopKeys = []string{"Depth", "Origin", "MEMBERSHIP", "Prev_State", "Hashes", "Event_ID", "ROOM_ID"}
+// keys that differ from a protected key only in case, or only by a letter that Unicode case folding equates with
+// s / k (U+017F long s, U+212A Kelvin sign: encoding/json matches such names to the protected key's struct field);
+// one event in ~16
+var caseVariantTopKeys = []string{"Depth", "Origin", "MEMBERSHIP", "Prev_State", "Hashes", "Event_ID", "ROOM_ID",
+	"\u017fender", "\u017ftate_key", "state_\u212aey", "\u017fTATE_\u212aEY", "ha\u017fhe\u017f", "\u017fignatures",
+	"origin_\u017ferver_ts", "origin_server_t\u017f", "member\u017fhip", "prev_event\u017f", "auth_event\u017f", "prev_\u017ftate"}
 
 var allContentKeys = []string{"membership", "join_authorised_via_users_server", "creator", "room_version",
 	"additional_creators", "m.federate", "predecessor", "join_rule", "allow", "ban", "events", "events_default",
@@ -211,8 +215,8 @@ func randomEvent(r *rand.Rand, i int) (traceLine, []byte) {
 		}
 		top[k] = realise(randClass(r), k)
 	}
-	if !pdu && r.Float64() < 0.025 {
-		// (not for PDUs: their parser is typed and matches keys case-insensitively as well)
+	if r.Float64() < 0.06 {
+		// (PDUs too: the event parsers leave such members out of the decoding)
 		k := caseVariantTopKeys[r.Intn(len(caseVariantTopKeys))]
 		top[k] = realise(randClass(r), k)
 	}
